@@ -128,11 +128,14 @@ def main():
         "engines": [
             {"name": "fv", "path": "/verif/harness",
              "serves_properties": sorted(CLAIMED.keys()),
-             "kind_free_text": "Rust binary: proptest 1.11 TestRunner driven from a binary (fixed seeds, 16 shards in worker processes, shrinking, JSON replay files), enumerators for the finite sub-domains, counting global allocator, CPU watchdog"},
+             "kind_free_text": "Rust binary: proptest 1.11 TestRunner driven from a binary (fixed seeds, 16 shards in worker processes, shrinking, JSON replay files), enumerators for the finite sub-domains, counting global allocator, per-case CPU watchdog, crash attribution with delta-debugging minimisation"},
+            {"name": "libfuzzer", "path": "/verif/harness/fuzz",
+             "serves_properties": ["C01", "C02", "C05", "C06", "C08", "C09", "C11", "C14"],
+             "kind_free_text": "cargo-fuzz / libFuzzer targets parse, reader_ops, writer_ops: bytes are decoded into the proptest oracles' structured cases (harness/src/fuzzdec.rs); thorough tier only"},
         ],
         "checks": checks,
         "not_applicable": na,
-        "notes": "All checks: ./check <Cxx> <quick|thorough>; exit 0 held, 1 VIOLATION, 2 inconclusive. Known findings: /verif/known_findings.json. Replays written at run time: /verif/replays; committed regression cases: /verif/corpus/<Cxx>.",
+        "notes": "All checks: ./check <Cxx> <quick|thorough>; exit 0 held, 1 VIOLATION (line `VIOLATION property=<id> replay=<path>`), 2 inconclusive (build failure, worker death without attributable case for a property that is not about crashes, generator class never produced). Every check runs 16 worker processes whose shards alternate between a build with overflow checks + debug assertions and a plain release build (C10: release only; C14: additionally AddressSanitizer); thorough tiers of C01 C02 C05 C06 C08 C09 C11 C14 append a libFuzzer stage (harness/fuzz). Known findings: /verif/known_findings.json (only `fixed:` records at present). Replays written at run time: /verif/replays; committed regression cases, replayed by every run: /verif/corpus/<Cxx>. Sensitivity material: /verif/mutants, /verif/seeded (tools/run_all_mutants.sh, tools/run_seeded.sh; they use scratch worktrees via VERIF_REPO and never touch /repo).",
     }
     with open(os.path.join(HERE, "MANIFEST.json"), "w") as f:
         json.dump(manifest, f, indent=1)
